@@ -305,8 +305,8 @@ def _docwriter(role: str) -> Callable[[str], str]:
 #   kind 'block'   : fragment = the whole docstring around the text; pre/post are read from the sentinel render
 #   kind 'docw'    : DocumentationWriter output (relational model)
 #   kind 'comment' : fragment = "  # …" to the end of the output line
-# F15a/b/e/f/h/i/j (bits 1, 2, 5, 6, 8, 9, 10) are FIXED in /repo: a failure at those sites is a VIOLATION
-FIND = {"F15c": 3, "F15d": 4, "F15g": 7, "F15k": 11, "F15l": 12}
+# F15a-k are FIXED in /repo: a failure at those sites is a VIOLATION.  Still open: F15l (enum-typed default, bit 12)
+FIND = {"F15l": 12}
 SITES: dict[str, dict] = {
     "enum_value":     {"n": 1, "kind": "dq", "f": "F15a", "r": r_enum_value},
     "meta_key":       {"n": 2, "kind": "dq", "f": "F15b", "r": r_meta_key},
@@ -618,8 +618,7 @@ def sites_for(pos: str, t: str) -> list[int]:
     return POSITIONS[pos]["sites"]
 
 
-SITE_FINDING = {17: "F15l", 18: "F15l", 19: "F15l", 9: "F15c",
-                11: "F15k", 12: "F15d", 13: "F15k", 14: "F15k", 15: "F15g", 16: "F15g"}
+SITE_FINDING = {17: "F15l", 18: "F15l", 19: "F15l"}
 
 
 def skeleton(tree: ast.AST) -> str:
